@@ -18,6 +18,8 @@ const IMPLS: [&str; 7] = ["calc", "sx1261", "sx1262", "stm32wl", "sx1272", "sx12
 /// Code families: variants of one family share `create_modulation_params`.
 const FAMILY: [&str; 7] = ["calc", "sx126x", "sx126x", "sx126x", "sx127x", "sx127x", "lr1110"];
 const FREQS: [u32; 2] = [868_100_000, 433_175_000];
+/// LR11xx also has a 2.4 GHz front end: the decision is a matter of spreading factor and bandwidth there too
+const FREQS_LR11XX: [u32; 4] = [868_100_000, 433_175_000, 2_403_000_000, 2_479_000_000];
 
 /// Reference decision, exact rational arithmetic. Returns (with true bandwidth, with the data
 /// sheets' rounded nominal bandwidth). on <=> 2^SF / BW >= 16.38 ms.
@@ -262,7 +264,8 @@ impl Monitor for C15 {
             let mut seen: Vec<bool> = vec![];
             let (ncr, nfreq) = if col.tier == Tier::Sanitizer { (1, 1) } else { (4, 2) };
             for cri in 0..ncr {
-                for &freq in FREQS[..nfreq].iter() {
+                let freqs: &[u32] = if imp == 6 && col.tier != Tier::Sanitizer { &FREQS_LR11XX } else { &FREQS[..nfreq] };
+                for &freq in freqs.iter() {
                     let pkt = (rng.range(6, 20) as u16, rng.bool(), rng.range(1, 256) as u8, rng.bool(), rng.bool());
                     // half of the runs: the driver had an earlier life with another cell programmed
                     let prior = if rng.bool() { Some((rng.below(8) as usize, rng.below(10) as usize)) } else { None };
